@@ -1720,9 +1720,10 @@ class WBEMListener:
         This function is called in the callback thread to deliver a single
         indication to all registered callback functions.
 
-        If a callback function raises any exception, this is logged as an error
-        using the listener logger and the next registered callback function is
-        called.
+        If a callback function raises any exception (including exceptions
+        not derived from Exception, such as SystemExit), this is logged as an
+        error using the listener logger and the next registered callback
+        function is called.
 
         Parameters:
 
@@ -1743,7 +1744,10 @@ class WBEMListener:
 
             try:
                 callback(indication, host)
-            except Exception as exc:  # pylint: disable=broad-except
+            # BaseException, because e.g. sys.exit() in a callback function
+            # would otherwise silently end the callback thread: Indications
+            # would no longer be delivered and stop() would wait forever.
+            except BaseException as exc:  # pylint: disable=broad-except
                 self.logger.error(
                     "Callback function %r raised %s: %s",
                     callback.__name__, exc.__class__.__name__, exc)
